@@ -1,0 +1,41 @@
+//go:build verif
+// +build verif
+
+package miner
+
+import (
+	"github.com/massnetorg/mass-core/massutil"
+	"github.com/massnetorg/mass-core/wire"
+)
+
+// Accessors for the verification harness (/verif). Compiled only with -tags verif.
+
+// VerifSolveBlock runs one round of the miner (template, double-mining check, proof search, assembly, signature).
+func (m *PoCMiner) VerifSolveBlock(payoutAddresses []massutil.Address, quit chan struct{}) (*wire.MsgBlock, massutil.Amount, error) {
+	return m.solveBlock(payoutAddresses, quit)
+}
+
+// VerifErrName classifies the errors of a round.
+func VerifErrName(err error) string {
+	switch err {
+	case nil:
+		return "ok"
+	case errQuitSolveBlock:
+		return "quit"
+	case errNoValidProof:
+		return "noValidProof"
+	case errAvoidDoubleMining:
+		return "avoidDoubleMining"
+	case errBestChainSwitched:
+		return "bestChainSwitched"
+	case errWrongTemplateCh:
+		return "wrongTemplate"
+	}
+	return "other:" + err.Error()
+}
+
+// VerifMined reports whether a height is recorded as mined.
+func (m *PoCMiner) VerifMined(height uint64) bool {
+	_, ok := m.minedHeight[height]
+	return ok
+}
